@@ -421,8 +421,68 @@ func c12Trip(r *core.Run, fn *ssa.Function) {
 				return isC && k == idx
 			}, want)
 		}
-		chk("true-edge-stays", succLookup(0, true), "count only if the true successor of the test stays in the loop", "the polarity of the exit test is ignored: 'if cond { break }' is counted like 'for cond { }'")
-		chk("false-edge-leaves", succLookup(1, false), "count only if the false successor leaves the loop", "the false successor of the exit test is not required to leave the loop")
+		// polarity of the header test. Either the count is derived only for "true edge stays, false edge leaves",
+		// or both orientations are handled and the comparison operator is complemented when the true edge is the exit.
+		var opPhi *ssa.Phi
+		core.InstrsOf(fn, func(in ssa.Instruction) {
+			b, ok := in.(*ssa.BinOp)
+			if !ok || b.Op != token.EQL {
+				return
+			}
+			if ph, isPhi := b.X.(*ssa.Phi); isPhi && strings.HasSuffix(ph.Type().String(), "token.Token") {
+				if _, isC := core.ConstInt(b.Y); isC {
+					opPhi = ph
+				}
+			}
+		})
+		if opPhi == nil {
+			chk("true-edge-stays", succLookup(0, true), "count only if the true successor of the test stays in the loop", "the polarity of the exit test is ignored: 'if cond { break }' is counted like 'for cond { }'")
+			chk("false-edge-leaves", succLookup(1, false), "count only if the false successor leaves the loop", "the false successor of the exit test is not required to leave the loop")
+		} else {
+			chk("exactly-one-successor-stays", func(cond ssa.Value) (bool, bool) {
+				op, x, y, neg, ok := core.Compare(cond)
+				if !ok || neg || (op != token.EQL && op != token.NEQ) {
+					return false, false
+				}
+				m0, _ := succLookup(0, true)(x)
+				m1, _ := succLookup(1, true)(y)
+				if !(m0 && m1) {
+					m0, _ = succLookup(1, true)(x)
+					m1, _ = succLookup(0, true)(y)
+				}
+				return m0 && m1, op == token.NEQ
+			}, "count only if exactly one successor of the header test stays in the loop", "a trip count is derived although both (or neither) successors of the test stay in the loop")
+			complement := map[token.Token]token.Token{token.LSS: token.GEQ, token.LEQ: token.GTR, token.GTR: token.LEQ, token.GEQ: token.LSS, token.EQL: token.NEQ}
+			okPol, whyPol := true, ""
+			nEdges := 0
+			for i, e := range opPhi.Edges {
+				pred := opPhi.Block().Preds[i]
+				if _, isOp := core.FieldLoad(e, "Op"); isOp {
+					// the operator as written: only when the true edge stays in the loop
+					nEdges++
+					ok1, n1, _ := core.MustPassUse(fn, core.Use{At: opPhi.Block(), Via: pred}, succLookup(0, true))
+					if !(ok1 && n1 > 0) {
+						okPol, whyPol = false, "the operator is used as written although the true edge may leave the loop"
+					}
+					continue
+				}
+				k, isC := core.ConstInt(e)
+				if !isC {
+					okPol, whyPol = false, "the operator is "+core.Canon(e)
+					continue
+				}
+				nEdges++
+				gate, ungated := tokensGating(fn, pred, "Op")
+				if ungated || len(gate) != 1 || complement[gate[0]] != token.Token(k) {
+					okPol, whyPol = false, fmt.Sprintf("under {%s} the operator becomes %s, which is not the complement", tokNames(gate), token.Token(k))
+				}
+				ok1, n1, _ := core.MustPass(fn, pred, succLookup(0, false))
+				if !(ok1 && n1 > 0) {
+					okPol, whyPol = false, "the operator is complemented although the true edge stays in the loop"
+				}
+			}
+			r.Check(okPol && nEdges >= 2, "C12.TRIP", construct+"/operator-follows-polarity", st.Pos(), "the comparison is used as written when the true edge stays in the loop and complemented (< ↔ >=, <= ↔ >, == ↔ !=) when it leaves", "the header test's polarity is not reflected in the operator: "+whyPol+" — 'for !(i >= n)' or 'if i < n { break }' would be counted like 'for i < n'")
+		}
 		chk("limit-invariant", core.BoolGuard(func(x ssa.Value) bool {
 			c, ok := x.(*ssa.Call)
 			return ok && c.Call.IsInvoke() && c.Call.Method.Name() == "IsLoopInvariant"
